@@ -1,7 +1,7 @@
 (* C04 - a built Partial is functools.partial; ArgFactory arguments are fresh per call.
    Model: theories/Partial.v (validated against the implementation by theories/C04Check.v).
    Proofs: theories/Partial_proofs.v. *)
-From Fiddle Require Import PyBase PySlice Sig ArgStore PyCall Heap Traverse Partial Partial_proofs Anchors.
+From Fiddle Require Import PyBase PySlice Sig ArgStore PyCall Heap Traverse Partial Partial_proofs AnchorsBuild.
 From Coq Require Import List Arith.
 Import ListNotations.
 Local Open Scope nat_scope.
